@@ -8,39 +8,18 @@ LEVEL_NOTE = ("Trusted: Coq 8.16.1 kernel (vm_compute, no native_compute); extra
               "B1-B3 (DESIGN.md 2.6); NumPy/SciPy/IEEE rounding are not modelled. Axioms per theorem: see evidence "
               "(Print Assumptions is parsed on every run).")
 
-CHECKS = {
-    "C01": dict(
-        text="Coq theorems (all l_a, l_b, orders, exponents, centres, by induction): the 1-D table the code's "
-             "Obara-Saika recursion builds equals prefactor x Gaussian moment at every index; the executable Gallina "
-             "model of the block / normalisation / spherical transform / triangle assembly is run (extracted OCaml, "
-             "exact rationals) against overlap_integral, overlap_integral_asymmetric and "
-             "Overlap.construct_array_contraction of /repo on every run. The 1e-8 accuracy clause is decided on the "
-             "generated inputs only.",
-        design="5 C01", technique="Coq proof (induction over the recursion) + model/implementation correspondence"),
-}
-CHECKS["C02"] = dict(
-    text="Coq theorems (all l_a, l_b, derivative orders D, exponents, centres; induction): on the whole slice the code "
-         "returns, the padded derivative recursion equals the k-fold x-derivative applied to the exact 1-D overlap "
-         "integrals (padding argument), and by integration by parts equals the integral of phi_a d^k/dx^k phi_b. The "
-         "executable model of the kinetic block (-1/2 sum of the three second derivatives) and of the assembly is run "
-         "against KineticEnergyIntegral.construct_array_contraction and kinetic_energy_integral on every run; the "
-         "1e-8*sqrt(T_aa T_bb) accuracy clause is decided on the generated inputs.",
-    design="5 C02", technique="Coq proof (induction over the padded recursion, integration by parts) + correspondence")
-CHECKS["C07"] = dict(
-    text="Coq theorems (all orders, l_a, l_b, origins; induction): the table built by the three-level Obara-Saika "
-         "recursion (a, then b, then moment order) equals prefactor x E((y+PC)^k (y+PA)^i (y+PB)^j) at every index; "
-         "order 0 does not depend on the origin. The executable model is run against Moment.construct_array_contraction "
-         "and moment_integral (all 125 order triples spread over shuffled lists, origins on/off centre/far), order "
-         "(0,0,0) vs overlap_integral, and the binomial origin-shift law is checked on the implementation.",
-    design="5 C07", technique="Coq proof (Obara-Saika induction, three linear factors) + correspondence")
-CHECKS["C08"] = dict(
-    text="Coq theorems (all l, exponents, centres): first-derivative entries of the recursion are the integrals of "
-         "phi_a d/dx phi_b; derivative on the right = minus derivative on the left (1-D anti-symmetry, hence Hermitian "
-         "-i d/dx); exchange symmetry of the moment integrals. The model assembles the real matrix R of -iR with "
-         "conjugate-transposed lower blocks (Hermitian) and is compared with momentum_integral / "
-         "angular_momentum_integral and the two construct_array_contraction methods; every component is also checked "
-         "purely imaginary and antisymmetric for every ordering of 2-3 shells.",
-    design="5 C08", technique="Coq proof (integration-by-parts identity by induction) + correspondence + Hermiticity monitor")
+def load_checks():
+    """one JSON file per claimed property under harness/checks/ (keys: text, design, technique[, level_note])"""
+    out = {}
+    d = os.path.join(VERIF, "harness", "checks")
+    for fn in sorted(os.listdir(d)):
+        if fn.endswith(".json"):
+            with open(os.path.join(d, fn)) as f:
+                out[fn[:-5]] = json.load(f)
+    return out
+
+
+CHECKS = load_checks()
 NOT_YET = {}
 
 
@@ -59,7 +38,7 @@ def main():
                 "replay_cmd_template": "./check %s --replay {path}" % pid,
                 "engine": "coq+correspondence",
                 "level_claimed": {"category": "proof", "text": c["text"], "design_ref": c["design"]},
-                "level_note": LEVEL_NOTE,
+                "level_note": c.get("level_note", LEVEL_NOTE),
                 "technique": c["technique"],
             })
     na = [{"property_id": pid, "reason": NOT_YET.get(pid, "check not built yet in this session (planned, see DESIGN.md 10); not claimed")}
